@@ -181,7 +181,7 @@ def d1_dir(name):
     return os.path.join(WORK, "d1", name)
 
 
-def setup_d1(name, bins, rt=True, lib=None, extra_toml="", no_std_lib=None, educe_features=None):
+def setup_d1(name, bins, rt=True, lib=None, extra_toml="", no_std_lib=None, educe_features=None, edition="2021"):
     """Create a cargo package `name` with the given {bin name: source}. Returns its dir."""
     d = d1_dir(name)
     srcdir = os.path.join(d, "src", "bin")
@@ -200,7 +200,7 @@ def setup_d1(name, bins, rt=True, lib=None, extra_toml="", no_std_lib=None, educ
     toml = """[package]
 name = "%s"
 version = "0.0.0"
-edition = "2021"
+edition = "%s"
 autobins = true
 
 [dependencies]
@@ -213,7 +213,7 @@ incremental = false
 debug = 0
 incremental = false
 %s
-""" % (name, deps, extra_toml)
+""" % (name, edition, deps, extra_toml)
     if lib is not None:
         write(os.path.join(d, "src", "lib.rs"), lib)
     else:
